@@ -90,10 +90,12 @@ func runC19(c *Ctx, withTxs bool) {
 	var cr *chainRun
 	var tr *txRun
 	var summary string
+	var txsc *txScenario
 	if withTxs {
 		ns = NewNodeSim(c)
 		sc := genTxScenario(c, ns.TxW, txGenOpts{conflicts: 1, blocks: true, untrusted: true, local: true, maxTxs: 12})
 		sc.slowHandler = t.Bool(2, 3)
+		txsc = sc
 		tr = newTxRun(c, sc, ns)
 		summary = sc.String()
 		if t.Bool(1, 4) {
@@ -142,7 +144,27 @@ func runC19(c *Ctx, withTxs bool) {
 	default:
 		stopAfter = time.Duration(t.Choose(200)) * time.Second
 	}
-	c.Res.Summary = fmt.Sprintf("stopAfter=%v txs=%v %s", stopAfter, withTxs, summary)
+	// half of the transaction runs: Stop lands while one of the scenario's deliveries is on its way
+	// through the node (in the connection's handler, in the tx channel, in the tx processor)
+	stopAtDelivery := time.Duration(-1)
+	if txsc != nil && len(txsc.txs) > 0 && t.Bool(1, 2) {
+		ts := txsc.txs[t.Choose(uint32(len(txsc.txs)))]
+		d := ts.deliveries[t.Choose(uint32(len(ts.deliveries)))]
+		if t.Bool(1, 2) {
+			// prefer a local submission (an application thread inside SendTx / HandleTx)
+			for _, x := range txsc.txs {
+				for _, xd := range x.deliveries {
+					if xd.src == "send" || xd.src == "handle" {
+						d = xd
+					}
+				}
+			}
+		}
+
+		stopAtDelivery = d.at + time.Duration(t.Choose(uint32((txsc.latBase+txsc.latJitter)/time.Millisecond)+25))*time.Millisecond
+		c.Probe("stop_aimed_at_a_delivery")
+	}
+	c.Res.Summary = fmt.Sprintf("stopAfter=%v stopAtDelivery=%v txs=%v %s", stopAfter, stopAtDelivery, withTxs, summary)
 	ns.firstLocator = map[*PeerConn]string{}
 	done := false
 	simrt.Go("driver", func() {
@@ -162,7 +184,16 @@ func runC19(c *Ctx, withTxs bool) {
 				}
 			})
 		}
-		simrt.Sleep(stopAfter)
+		if stopAtDelivery >= 0 {
+			for i := 0; tr.origin == 0 && i < 700_000 && c.Res.Inconclusive == ""; i++ {
+				simrt.Sleep(time.Millisecond)
+			}
+			if wait := tr.origin + stopAtDelivery - ns.S.Now(); tr.origin != 0 && wait > 0 {
+				simrt.Sleep(wait)
+			}
+		} else {
+			simrt.Sleep(stopAfter)
+		}
 		for ns.Node == nil {
 			simrt.Sleep(time.Millisecond)
 		}
@@ -276,6 +307,6 @@ func init() {
 		Run:  func(c *Ctx) { runC19(c, false) }})
 	Register(&Check{Prop: "C19", Sub: "stop-txs", Weight: 1, Real: real, Stub: txStub,
 		Req:  []string{"stopped"},
-		Rule: "a transaction scenario (untrusted peers, local submissions, blocks, slow handlers) with Stop requested at a tape-chosen instant, including while untrusted connections are being opened and inside handler callbacks; every run is non-trivial.",
+		Rule: "a transaction scenario (untrusted peers, local submissions, blocks, slow handlers) with Stop requested at a tape-chosen instant, including while untrusted connections are being opened and inside handler callbacks; in half of the runs the instant is that of one of the scenario's deliveries plus up to the link latency and 25 ms (Stop while a transaction is in a connection handler, the tx channel or the tx processor); every run is non-trivial.",
 		Run:  func(c *Ctx) { runC19(c, true) }})
 }
